@@ -1,13 +1,13 @@
-(* extraction for C01: the DE-9IM oracle (C01/ArrangementDefs, C01/OracleDefs), the validity decision used to certify generated
-   inputs (Lib/ValidDefs), the pattern-set definitions (Lib/IM) and the generated predicate protocol (C01/Pred).
+(* extraction for C01, part 1 (core): the DE-9IM oracle (C01/ArrangementDefs, C01/OracleDefs), the validity decision used to
+   certify generated inputs (Lib/ValidDefs) and the pattern-set definitions (Lib/IM).  Nothing here depends on a unit generated
+   from the C++ or on a proof file: the oracle still builds and runs when one of those breaks.
    ExtrOcamlBasic + ExtrOcamlString only; Z, positive, nat stay inductive. *)
 Require Import GeosV.Lib.GeomDefs GeosV.Lib.LocateDefs GeosV.Lib.ValidDefs GeosV.Lib.IM GeosV.Lib.GenPreludePred.
-Require Import GeosV.C01.ArrangementDefs GeosV.C01.OracleDefs GeosV.C01.Pred.
+Require Import GeosV.C01.ArrangementDefs GeosV.C01.OracleDefs.
 Require Extraction.
 Require Import ExtrOcamlBasic ExtrOcamlString.
-Extraction "xc01.ml" relate_oracle oracle_run relate_spec side_ok oracle_events oracle_realizable realizable_b dim_real env_of named_values
+Extraction "xc01.ml" relate_oracle oracle_run relate_spec side_ok oracle_events dim_real env_of named_values
   valid_geom in_scope fragile_nodes representable lines_of witnesses nodes all_segs loc_dim_h loc_dim_fast
   spec_disjoint spec_intersects spec_within spec_contains spec_covers spec_coveredBy spec_equals spec_touches spec_crosses
   spec_overlaps spec_containsProperly transpose pat_matches sym_of_code
-  evaluate vt_contains vt_within vt_covers vt_coveredBy vt_crosses vt_overlaps vt_touches vt_equals vt_intersects vt_disjoint
   map_geom translate reflect_x reflect_y swap_xy.
